@@ -4,6 +4,7 @@ import (
 	"bytes"
 	"encoding/json"
 	"fmt"
+	"github.com/dcaiafa/lox/verif/internal/root"
 	goast "go/ast"
 	goparser "go/parser"
 	gotoken "go/token"
@@ -131,9 +132,9 @@ func c12Seeds(quick bool) []c12Seed {
 		}
 		return string(b)
 	}
-	calc := rd("/repo/examples/calc/calc.lox")
+	calc := rd(root.RepoPath("examples/calc/calc.lox"))
 	if calc == "" {
-		if m, _ := filepath.Glob("/repo/examples/calc/*.lox"); len(m) > 0 {
+		if m, _ := filepath.Glob(root.RepoPath("examples/calc") + "/*.lox"); len(m) > 0 {
 			calc = rd(m[0])
 		}
 	}
@@ -142,7 +143,7 @@ func c12Seeds(quick bool) []c12Seed {
 	}
 	if !quick {
 		for _, d := range []string{"internal/parser", "examples/jsonc", "examples/bolox"} {
-			m, _ := filepath.Glob("/repo/" + d + "/*.lox")
+			m, _ := filepath.Glob(root.RepoPath(d) + "/*.lox")
 			if len(m) > 0 {
 				seeds = append(seeds, c12Seed{name: d, files: map[string]string{"a.lox": rd(m[0])}, main: "a.lox", small: false})
 			}
@@ -251,8 +252,8 @@ func firstLines(s string, n int) string {
 	ls := strings.Split(s, "\n")
 	var keep []string
 	for _, l := range ls {
-		if strings.Contains(l, "/repo/") || len(keep) == 0 {
-			keep = append(keep, strings.TrimSpace(hexStrip(l)))
+		if strings.Contains(l, root.Repo()+"/") || len(keep) == 0 {
+			keep = append(keep, strings.TrimSpace(hexStrip(strings.ReplaceAll(l, root.Repo()+"/", "/repo/"))))
 		}
 		if len(keep) >= n {
 			break
@@ -498,7 +499,7 @@ func c12Packages(c *mc.Ctx, ws *pipe.Workspace) {
 			c.Touch("building lox")
 		}
 		if !built {
-			if out, err := run("/repo", "go", "build", "-o", bin, "./cmd/lox"); err != nil {
+			if out, err := run(root.Repo(), "go", "build", "-o", bin, "./cmd/lox"); err != nil {
 				c.Stats.HarnessError("cannot build lox: %v: %s", err, out)
 				return
 			}
